@@ -22,6 +22,9 @@ type C17Case struct {
 	Last    string    `json:"last"`    // partial last word ("" = cursor after a space)
 	Zsh     bool      `json:"zsh"`
 	Class   string    `json:"class"`
+	// Seps: the blanks written in front of each word after the program name (earlier words, then the last
+	// word); missing = one blank. COMP_LINE is the text the user typed: runs of blanks and tabs separate words.
+	Seps []string `json:"seps,omitempty"`
 }
 
 var c17Values = []string{"dev", "development", "prod", "production", "staging", "debug", "info", "infinity", "error", "a=b", "x", "tok="}
@@ -29,6 +32,7 @@ var c17Values = []string{"dev", "development", "prod", "production", "staging", 
 func genC17(t *rapid.T) C17Case {
 	cfg := DefaultCfg()
 	cfg.RequireOrder = 0 // with require-order the program name itself is the stop token: outside the statement
+	cfg.CmdRO = true     // a wrapper command with require-order completes its own level until its stop token
 	cfg.Help = 1
 	cfg.MinCmds = 1
 	cfg.MaxOpts = 5
@@ -98,13 +102,22 @@ func genC17(t *rapid.T) C17Case {
 				if len(o.Valid) > 0 {
 					v = o.Valid[0]
 				}
-				c.Earlier = append(c.Earlier, "--"+k+"="+v)
+				if o.Kind.IsScalar() && !o.Kind.IsOptional() && rapid.IntRange(0, 2).Draw(t, "edetached") == 0 {
+					c.Earlier = append(c.Earlier, "--"+k, v) // value as the next word
+				} else {
+					c.Earlier = append(c.Earlier, "--"+k+"="+v)
+				}
 			}
 		case 3:
 			w := rapid.SampledFrom([]string{"foo", "bar", "file.txt"}).Draw(t, "eword")
 			if _, isCmd := lv.Children[w]; !isCmd {
 				c.Earlier = append(c.Earlier, w)
 			}
+		}
+	}
+	if rapid.IntRange(0, 3).Draw(t, "blanks") == 0 {
+		for i := 0; i <= len(c.Earlier); i++ {
+			c.Seps = append(c.Seps, rapid.SampledFrom([]string{" ", " ", "  ", "   ", "\t", " \t "}).Draw(t, "sep"))
 		}
 	}
 	// last word
@@ -229,11 +242,35 @@ func checkC17(c C17Case, st *evid.Stats) error {
 	if L == nil {
 		return failf("harness: model final level %q not found", m.Final)
 	}
-	compLine := "./prog"
-	for _, w := range c.Earlier {
-		compLine += " " + w
+	// require-order on a command of the path: once its stop token has been seen everything is text and there
+	// is nothing to complete; only lines that have not reached a stop token are judged
+	for l := L; l != nil; l = l.Parent {
+		if l.RequireOrder && len(m.Remaining) > 0 {
+			st.Exclude("a require-order level of the path has seen its stop token")
+			return nil
+		}
 	}
-	compLine += " " + c.Last
+	sep := func(i int) string {
+		if i < len(c.Seps) {
+			for _, r := range c.Seps[i] {
+				if r != ' ' && r != '\t' {
+					return " "
+				}
+			}
+			if c.Seps[i] != "" {
+				return c.Seps[i]
+			}
+		}
+		return " "
+	}
+	compLine := "./prog"
+	for i, w := range c.Earlier {
+		compLine += sep(i) + w
+	}
+	compLine += sep(len(c.Earlier)) + c.Last
+	if len(c.Seps) > 0 && strings.Trim(strings.Join(c.Seps, ""), " ") != "" || strings.Contains(strings.Join(c.Seps, ""), "  ") {
+		st.Class("words-separated-by-runs-of-blanks-or-tabs")
+	}
 	prev := "./prog"
 	if len(c.Earlier) > 0 {
 		prev = c.Earlier[len(c.Earlier)-1]
@@ -464,7 +501,7 @@ func hasInherited(l *Level) bool {
 }
 
 var propC17 = &Prop[C17Case]{ID: "C17", Sub: "completion",
-	Rule:  "rapid: command trees (aliases, inherited options, valid/suggested/dynamic values, static+dynamic argument suggestions, wrappers, commands without function, help) x COMP_LINE = program name + earlier words that parse on their own and leave no option waiting for a value (commands, --flag, --opt=value, words) + partial last word {empty, prefix of a command/suggestion, -, --, --prefix, -prefix, --name=, --name=prefix, unrelated word} x bash/zsh; in-process through the exit/writer hook; non-trivial = the typed prefix filters a candidate set of >=2 at depth>=1 or with inherited options, or a value completion with >=1 candidate; distinct by (candidate set, last word, level, shell)",
+	Rule:  "rapid: command trees (aliases, inherited options, valid/suggested/dynamic values, static+dynamic argument suggestions, wrappers, commands without function, help) x COMP_LINE = program name + earlier words that parse on their own and leave no option waiting for a value (commands, --flag, --opt=value, --opt value for mandatory scalars, words; in a quarter of the cases separated by runs of blanks / tabs; wrapper commands with require-order until their stop token) + partial last word {empty, prefix of a command/suggestion, -, --, --prefix, -prefix, --name=, --name=prefix, unrelated word} x bash/zsh; in-process through the exit/writer hook; non-trivial = the typed prefix filters a candidate set of >=2 at depth>=1 or with inherited options, or a value completion with >=1 candidate; distinct by (candidate set, last word, level, shell)",
 	Gen:   genC17,
 	Check: checkC17,
 }
